@@ -993,6 +993,7 @@ def selects(body):
                     creator = [y for y in sc if y.bb == d[1]]
                     creator = unwrap_future(body, creator[0]) if creator else None
             s.branches.append(creator)
+        s.preconds = select_preconditions(body, c)
         # arms: switch on the discriminant of the select output
         s.out_local = c.result
         for br in branches_on(body, c.result, c.done_bb):
@@ -1002,6 +1003,87 @@ def selects(body):
             if s.arms:
                 break
         out.append(s)
+    return out
+
+
+def select_preconditions(body, poll_call):
+    """{branch index: (bool local, value required for the branch to be enabled)} for `pat = fut, if cond`
+    preconditions of the form `x` / `!x` on a plain bool local (tokio::select! disables a branch by or-ing
+    `1 << index` into a mask before polling)."""
+    out = {}
+    line = poll_call.term.get("line")
+    for bb, k, pl, rv, st in body.assigns():
+        if rv["k"] != "bin" or rv["op"] != "BitOr" or not any("select" in m for m in (st.get("mac") or [])):
+            continue
+        if st.get("line") != line or not body.dominates(bb, poll_call.bb) and bb not in body.reachable(0, avoid={poll_call.bb}):
+            continue
+        # shift amount
+        idx = None
+        p = op_place(rv["b"])
+        cur = p.local if p is not None else None
+        for _ in range(4):
+            d = single_def(body, cur) if cur is not None else None
+            if d is None or d[0] != "assign":
+                break
+            r2 = d[3]
+            if r2["k"] == "bin" and r2["op"].startswith("Shl"):
+                c = op_const(r2["b"])
+                idx = c.get("int") if c else None
+                break
+            if r2["k"] == "use":
+                q = op_place(r2["op"])
+                cur = q.local if q is not None else None
+            else:
+                break
+        if idx is None:
+            continue
+        # walk up to the deciding switch
+        cur_bb = bb
+        edge_from = None
+        for _ in range(8):
+            ps = body.pred(cur_bb)
+            if len(ps) != 1:
+                break
+            pb = ps[0]
+            if body.blocks[pb]["term"]["t"] == "switch":
+                edge_from = (pb, cur_bb)
+                break
+            cur_bb = pb
+        if edge_from is None:
+            continue
+        sw = body.blocks[edge_from[0]]["term"]
+        dp = op_place(sw["discr"])
+        if dp is None or dp.proj:
+            continue
+        neg = False
+        src = dp.local
+        for _ in range(4):
+            d = single_def(body, src)
+            if d is None or d[0] != "assign":
+                break
+            r2 = d[3]
+            if r2["k"] == "use" and op_place(r2["op"]) is not None and not op_place(r2["op"]).proj:
+                src = op_place(r2["op"]).local
+            elif r2["k"] == "un" and r2["op"] == "Not" and op_place(r2["a"]) is not None:
+                src = op_place(r2["a"]).local
+                neg = not neg
+            else:
+                break
+        if strip_generics(body.locals[src]["ty"]) != "bool" or body.local_name(src) is None:
+            continue
+        vals = [v for v, tg in sw["targets"] if tg == edge_from[1]]
+        if vals:
+            dis = bool(vals[0])
+        elif sw["otherwise"] == edge_from[1]:
+            listed = {v for v, _ in sw["targets"]}
+            rest = [d_ for d_ in (0, 1) if d_ not in listed]
+            if len(rest) != 1:
+                continue
+            dis = bool(rest[0])
+        else:
+            continue
+        disabling_value = dis != neg
+        out[idx] = (src, not disabling_value)
     return out
 
 
